@@ -107,4 +107,100 @@ theorem hoist_exec (b : Body) (hwf : LayoutWF b.items = true) :
       execIL ms subs fuel ea σ = execIL ms subs fuel eb σ :=
   denote_eq_exec _ _ (hoist_denote b hwf)
 
+/-! ### Non-vacuity and necessity of the hypotheses (kernel-checked) -/
+
+/-- READ_STATEMENTS layout of two statements: each one pure/bool declaration directly in front of the effect
+    declaration that uses it (the second also re-reads `a` through `DUP`), operands and comments interleaved. -/
+def exRS : List Item :=
+  [.comment " statement 1",
+   .decl "const HexOp *" "Rd_op" (.app "ISA2REG" [.id "hi", .chr "d", .id "false"]),
+   .decl "RzILOpPure *" "a" (.app "ADD" [.id "Rs", .app "SN" [.num 32, .num 1]]),
+   .decl "RzILOpEffect *" "e1" (.app "WRITE_REG" [.id "bundle", .id "Rd_op", .id "a"]),
+   .comment " statement 2",
+   .decl "RzILOpBool *" "c" (.app "ULT" [.app "DUP" [.id "a"], .id "Rt"]),
+   .decl "RzILOpEffect *" "e2" (.app "BRANCH" [.id "c", .app "JMP" [.id "Rt"], .app "EMPTY" []]),
+   .ret (.app "SEQN" [.num 2, .id "e1", .id "e2"])]
+
+example : LayoutWF exRS = true := by decide +kernel
+
+/-- its EXEC_CLASSES arrangement: the two value declarations first -/
+example : hoistPures exRS =
+  [.decl "RzILOpPure *" "a" (.app "ADD" [.id "Rs", .app "SN" [.num 32, .num 1]]),
+   .decl "RzILOpBool *" "c" (.app "ULT" [.app "DUP" [.id "a"], .id "Rt"]),
+   .comment " statement 1",
+   .decl "const HexOp *" "Rd_op" (.app "ISA2REG" [.id "hi", .chr "d", .id "false"]),
+   .decl "RzILOpEffect *" "e1" (.app "WRITE_REG" [.id "bundle", .id "Rd_op", .id "a"]),
+   .comment " statement 2",
+   .decl "RzILOpEffect *" "e2" (.app "BRANCH" [.id "c", .app "JMP" [.id "Rt"], .app "EMPTY" []]),
+   .ret (.app "SEQN" [.num 2, .id "e1", .id "e2"])] := by rfl
+
+/-- the theorem applies (and the denoted term is a genuine one, not `none`) -/
+example : denoteIL { header := none, items := hoistPures exRS } = denoteIL { header := none, items := exRS } :=
+  hoist_denote { header := none, items := exRS } (by decide +kernel)
+
+example : denoteIL { header := none, items := exRS } =
+    some (.app "SEQN" [.num 2,
+      .app "WRITE_REG" [.id "bundle", .id "Rd_op", .app "ADD" [.id "Rs", .app "SN" [.num 32, .num 1]]],
+      .app "BRANCH" [.app "ULT" [.app "ADD" [.id "Rs", .app "SN" [.num 32, .num 1]], .id "Rt"],
+                     .app "JMP" [.id "Rt"], .app "EMPTY" []]]) := by rfl
+
+/-- `namesDistinct` is needed: one name declared twice — hoisting makes the first effect read the second value. -/
+def exDupName : List Item :=
+  [.decl "RzILOpPure *" "a" (.id "X"),
+   .decl "RzILOpEffect *" "e1" (.app "W" [.id "a"]),
+   .decl "RzILOpPure *" "a" (.id "Y"),
+   .decl "RzILOpEffect *" "e2" (.app "W" [.id "a"]),
+   .ret (.app "SEQN" [.num 2, .id "e1", .id "e2"])]
+
+example : LayoutWF exDupName = false := by decide +kernel
+example : namesDistinct exDupName = false := by decide +kernel
+example : denoteIL { header := none, items := hoistPures exDupName } ≠ denoteIL { header := none, items := exDupName } := by
+  intro h
+  have h' : some (Term.app "SEQN" [.num 2, .app "W" [.id "Y"], .app "W" [.id "Y"]]) =
+            some (Term.app "SEQN" [.num 2, .app "W" [.id "X"], .app "W" [.id "Y"]]) := h
+  simp at h'
+
+/-- … also when the two other conditions hold: an effect and a later pure declaration share a name. -/
+def exDupName2 : List Item :=
+  [.decl "RzILOpEffect *" "a" (.app "W" [.id "Rs"]),
+   .decl "RzILOpPure *" "a" (.id "X"),
+   .ret (.id "a")]
+
+example : namesDistinct exDupName2 = false ∧ noForwardRef exDupName2 = true ∧ puresAvoidEffects exDupName2 = true := by
+  decide +kernel
+example : denoteIL { header := none, items := hoistPures exDupName2 } ≠ denoteIL { header := none, items := exDupName2 } := by
+  intro h
+  have h' : some (Term.app "W" [.id "Rs"]) = some (Term.id "X") := h
+  simp at h'
+
+/-- `noForwardRef` is needed: an effect mentions a name that is only declared LATER (so it is left alone by
+    `denoteIL`); after hoisting the declaration comes first and is inlined. -/
+def exForward : List Item :=
+  [.decl "RzILOpEffect *" "e1" (.app "W" [.id "x"]),
+   .decl "RzILOpPure *" "x" (.id "K"),
+   .ret (.id "e1")]
+
+example : namesDistinct exForward = true ∧ noForwardRef exForward = false ∧ puresAvoidEffects exForward = true := by
+  decide +kernel
+example : denoteIL { header := none, items := hoistPures exForward } ≠ denoteIL { header := none, items := exForward } := by
+  intro h
+  have h' : some (Term.app "W" [.id "K"]) = some (Term.app "W" [.id "x"]) := h
+  simp at h'
+
+/-- `puresAvoidEffects` is needed: a "pure" declaration that consumes an effect name cannot be moved in front of it. -/
+def exPureUsesEffect : List Item :=
+  [.decl "RzILOpEffect *" "e" (.app "W" [.id "Rs"]),
+   .decl "RzILOpPure *" "p" (.app "F" [.id "e"]),
+   .decl "RzILOpEffect *" "r" (.app "G" [.id "p"]),
+   .ret (.id "r")]
+
+example : namesDistinct exPureUsesEffect = true ∧ noForwardRef exPureUsesEffect = true ∧
+    puresAvoidEffects exPureUsesEffect = false := by
+  decide +kernel
+example : denoteIL { header := none, items := hoistPures exPureUsesEffect } ≠
+    denoteIL { header := none, items := exPureUsesEffect } := by
+  intro h
+  have h' : some (Term.app "G" [.app "F" [.id "e"]]) = some (Term.app "G" [.app "F" [.app "W" [.id "Rs"]]]) := h
+  simp at h'
+
 end Rzil
